@@ -39,6 +39,7 @@ struct env {
     /* inputs chosen by the case */
     uint8_t tape[2][32];      /* random source of table A / B */
     uint64_t clock[2];
+    uint64_t clock_seq[4]; int clock_seq_n; int clock_seq_i;   /* if clock_seq_n > 0 table A's clock returns these values in turn (a clock that changes between reads) */
     long fail_at;             /* fail the k-th allocation request counted from env_clear_log(); -1 = never */
     uint8_t mask[32];         /* returned by the KDF for the 16-byte ("mask") salt */
     uint8_t keyfill;          /* key byte i = keyfill + i for the 32-byte ("key") salt */
